@@ -65,6 +65,10 @@ func (p *AV1Payloader) Payload(mtu uint16, payload []byte) (payloads [][]byte) {
 			if err != nil {
 				break
 			}
+			// An obu_size that exceeds the input may not even fit an int: stop before converting.
+			if obuSizeValue > uint(len(payload)) {
+				break
+			}
 
 			offset += int(n)            //nolint:gosec // G115, leb128 size is a signle digit
 			obuSize = int(obuSizeValue) //nolint:gosec // G115, Leb128 is capped at 4 bytes
@@ -378,6 +382,10 @@ func (p *AV1Packet) parseBody(payload []byte) ([][]byte, error) {
 			obuElementLength, bytesRead, err = obu.ReadLeb128(payload[currentIndex:])
 			if err != nil {
 				return nil, err
+			}
+			// A length that exceeds the payload would wrap the sum below: refuse it here.
+			if obuElementLength > uint(len(payload)) {
+				return nil, errShortPacket
 			}
 		}
 
